@@ -360,6 +360,10 @@ class AddrWireWorld(World):
             self._check(ctx, aop, {'op': 'render', 'variant': 'raw'})
             for v in range(8):
                 self._check(ctx, aop, {'op': 'render', 'variant': v})
+            # a relay parses what it received and renders it again in another form (every ordered pair of forms)
+            for v1 in ['raw'] + list(range(8)):
+                for v2 in ['raw'] + list(range(8)):
+                    self._relay(ctx, aop, {'op': 'relay', 'variant': v1, 'to': v2, 'copy': (cfg['wc'] + (v2 if v2 != 'raw' else 8)) % 3 == 0})
             return
         for v in cfg['variants']:
             rop = {'op': 'render', 'variant': v}
@@ -392,6 +396,9 @@ class AddrWireWorld(World):
                 rop = o
                 ctx.op(o)
                 text = self._check(ctx, a, o, record=False)
+            elif o['op'] == 'relay':
+                ctx.op(o)
+                self._relay(ctx, a, o)
             elif o['op'] == 'substitute' and text is not None and o['pos'] < len(text):
                 ctx.op(o)
                 self._subst(ctx, a, rop, text, o['pos'], o['char'], record=False, times=o.get('times', 1))
@@ -436,6 +443,50 @@ class AddrWireWorld(World):
             self._fail(ctx, [aop, rop], 'roundtrip', 'Address(str)', klass, '; '.join(problems))
             return None
         return text
+
+    def _want(self, wc, acc, v):
+        if v == 'raw':
+            return '%d:%s' % (wc, acc.hex())
+        b, t, u = VARIANTS[v]
+        raw = bytes([(0x11 if b else 0x51) | (0x80 if t else 0), wc & 0xFF]) + acc
+        raw += refboc.crc16_xmodem(raw)
+        return (base64.urlsafe_b64encode(raw) if u else base64.b64encode(raw)).decode()
+
+    def _relay(self, ctx, aop, rop):
+        """text in form v1 -> Address -> (optionally Address(copy)) -> text in form v2 -> Address: the second text is the
+        reference layout of form v2 and parses with v2's flags, whatever form the object was first read from."""
+        wc, acc = aop['wc'], bytes.fromhex(aop['acc'])
+        v1, v2 = rop['variant'], rop['to']
+        ok, first = call(Address, self._want(wc, acc, v1))
+        if not ok:
+            return   # reported by the plain round trip
+        ctx.fault('relay-re-renders-parsed-address')
+        ctx.evaluated(2)
+        obj = first
+        if rop.get('copy'):
+            ok, obj = call(Address, first)
+            if not ok:
+                self._fail(ctx, [aop, rop], 'roundtrip', 'Address(Address)', 'copy', 'Address(address) raised %r' % (obj,))
+                return
+        if v2 == 'raw':
+            ok, text = call(obj.to_str, False)
+        else:
+            b, t, u = VARIANTS[v2]
+            ok, text = call(obj.to_str, True, u, b, t)
+        want = self._want(wc, acc, v2)
+        klass = 'parsed-from-%s' % ('raw' if v1 == 'raw' else 'friendly')
+        if not ok or text != want:
+            self._fail(ctx, [aop, rop], 'render', 'to_str-of-parsed', klass, 'an address parsed from form %s and rendered in form %s gives %r, reference layout is %r' % (v1, v2, text, want))
+            return
+        ok, back = call(Address, text)
+        if not ok or not (back == first) or back.wc != wc or back.hash_part != acc:
+            self._fail(ctx, [aop, rop], 'roundtrip', 'Address(str)-of-re-rendered', klass, 'form %s -> form %s does not parse back to the same address: %r' % (v1, v2, back))
+            return
+        if v2 != 'raw':
+            b, t, u = VARIANTS[v2]
+            if bool(back.is_bounceable) != b or bool(back.is_test_only) != t:
+                self._fail(ctx, [aop, rop], 'roundtrip', 'Address(str)-of-re-rendered', klass + '-flags',
+                           'parsed from form %s, rendered with bounceable=%r test_only=%r, parsed back with %r/%r' % (v1, b, t, back.is_bounceable, back.is_test_only))
 
     def _subst(self, ctx, aop, rop, text, pos, ch, record=True, times=1, again=False):
         damaged = text[:pos] + ch + text[pos + 1:]
